@@ -204,7 +204,7 @@ theorem normGo_prefix {a : Str} (ha : a.all msgCharOK = true) (s : Str) :
     · have : c = '\n' := by
         have := ha.1
         simpa [msgCharOK, notSep, hs] using this
-      simp [hs, this, ih ha.2]
+      simp [this, ih ha.2]
     · simp [hs, ih ha.2]
 
 theorem normGo_ne_nil {s : Str} (h : s ≠ []) : normGo false s ≠ [] := by
